@@ -4,7 +4,8 @@
 for arg in "$@"; do
   id="${arg%@*}"; pid="${id%-*}"; key="recheck"
   case "$arg" in *@*) pid="${arg#*@}"; key="recheck_$pid";; esac
-  out=$(/verif/tools/seeded_run.sh /verif/seeded/$id/patch.diff $pid 2>&1)
+  pf=/verif/seeded/$id/patch.diff; [ -f /verif/seeded/$id/patch_rebased.diff ] && pf=/verif/seeded/$id/patch_rebased.diff
+  out=$(/verif/tools/seeded_run.sh $pf $pid 2>&1)
   rc=$(echo "$out" | grep -o "SEEDED-RESULT rc=[0-9]*" | tail -1)
   nv=$(echo "$out" | grep -c "^VIOLATION")
   nf=$(echo "$out" | grep -c "no-failing-input-found")
